@@ -282,6 +282,7 @@ def seeded_cases(rng, j, n_mut):
 # oracle
 # ---------------------------------------------------------------------------------------------
 _LINE_RE = re.compile(r'\bline (\d+)\b')
+_UNIVERSAL_NL = re.compile(r'\r\n|\r|\n')
 _TB = 'Traceback (most recent call last)'
 _FRAME_RE = re.compile(r'File "([^"]+)", line \d+, in (\S+)')
 ERR65 = ('SYNTAX_ERROR', 'VALIDATION_ERROR', 'FILE_ACCESS_ERROR')
@@ -308,17 +309,22 @@ def located(text: str, err: str):
     """The location rule for a 65 outcome.  -> None if satisfied, else a message."""
     lines = text.split('\n')
     nums = [int(x) for x in _LINE_RE.findall(err)]
-    for n in nums:
-        if 1 <= n <= len(lines):
-            src = lines[n - 1].strip()
-            if src and src in err:
-                return None
+    # the manual does not say which characters end a line: accept '\n' only, universal newlines (what reading a text
+    # file gives: a lone CR also ends a line), or str.splitlines (FF, NEL, LS, ... too)
+    shown = set(l.strip() for l in err.split('\n')) | set(l.strip() for l in _UNIVERSAL_NL.split(err)) \
+        | set(l.strip() for l in err.splitlines())
+    for view in (lines, _UNIVERSAL_NL.split(text), text.splitlines()):
+        for n in nums:
+            if 1 <= n <= len(view):
+                src = view[n - 1].strip()
+                if src and src in shown:  # the whole line, as a line of its own
+                    return None
     # act phase: reported by phase and actor, without line numbers
     if '[act]' in err:
         act = [l.strip() for l in _act_source_lines(lines) if l.strip()]
         if not act:
             return None  # nothing to show: the act phase is empty (e.g. `actor = command` without an action)
-        if any(l in err for l in act):
+        if any(l in shown for l in act):
             return None
         if 'actor' in text and re.search(r'\nActor "[^"\n]*"\n\n\n\n', err):
             # Exactly shows an EMPTY act phase.  With an explicitly configured actor that is possible although the
@@ -551,6 +557,13 @@ def _k_nul_char(v):
     return 'Exception:\nembedded null byte' in _stderr(v)
 
 
+def _k_timeout_overflow(v):
+    """`timeout = N` with N beyond the float range (accepted by the instruction) -> OverflowError in
+    subprocess when the next process is run -> INTERNAL_ERROR at that instruction"""
+    return _internal(v, ('util/process_execution/process_executor.py', 'execute'), ('OverflowError',),
+                     message='int too large to convert to float')
+
+
 def _k_name_too_long(v):
     """file name longer than the file system allows (> 255 bytes): OSError(ENAMETOOLONG) is not translated to
     HARD_ERROR / VALIDATION_ERROR (seen in `copy`, `cd`, the PROGRAM path validator)"""
@@ -573,4 +586,5 @@ KNOWN = {
     'glob-empty-pattern-valueerror': _k_glob_empty,
     'file-name-too-long-oserror': _k_name_too_long,
     'nul-char-in-file-name-valueerror': _k_nul_char,
+    'timeout-beyond-float-range-overflowerror': _k_timeout_overflow,
 }
